@@ -100,7 +100,7 @@ def execute(W, op):
             W.get(op["e"]).pop(KEYSTR[op["k"]])
         elif t == "delNameProp":
             e = W.get(op["e"])
-            if op.get("assign_none") and e.name is not None:
+            if op.get("assign_none"):
                 e.name = None
             else:
                 del e.name
@@ -326,9 +326,9 @@ def gen_op(rng, W):
         return {"t": "setDefault", "pol": rng.choice(["DEFAULT", "EDIF"])}
     if els:
         e = rng.choice(els)
-        if rng.random() < 0.8:
+        if rng.random() < 0.7:
             return {"t": "setNs", "e": e, "pol": rng.choice(["DEFAULT", "EDIF"])}
-        return {"t": "setNs", "e": e, "pol": rng.choice(["DEFAULT", "EDIF"])}
+        return {"t": "delNs", "e": e}
     return {"t": "create", "e": ["netlist", 0]}
 
 
